@@ -81,6 +81,15 @@ class FoldExec(Exec):
                 m = re.fullmatch(r"\(= " + re.escape(v.t) + r" \(_ bv(\d+) 64\)\)", c)
                 if m:
                     return "true" if int(m.group(1)) == n else "false"
+        if isinstance(v, BoolV):
+            m = re.fullmatch(r"\(= (\w+) \(_ bv1 64\)\)", v.t)
+            if m and m.group(1) in self.domain:
+                sym, want = m.group(1), (1 if n != 0 else 0)
+                for c in self.cur_path.conds:
+                    if c == v.t:
+                        return "true" if want == 1 else "false"
+                    if c == f"(not {v.t})":
+                        return "true" if want == 0 else "false"
         return super().eq_const(v, n)
 
     def block(self, f, frame, bb, mem, path, depth, steps):
@@ -282,6 +291,17 @@ class FoldExec(Exec):
             ek = SymEnum("ErrorKind", f"d{j}", {"Io": {0: IoErr(j)}, "Conversion": {0: ConvErr(j)}}, origin=j)
             yield mem, path, SymEnum("Result", f"r{j}", {"Ok": {0: AssetV(j)}, "Err": {0: ek}}, origin=j)
             return
+        if c == "core::str::<impl str>::is_empty":
+            # only meaningful on a declared extension: z_j = "extension j is the empty string" (a legal extension:
+            # it is the default list, and names the file without extension)
+            e = args[0]
+            if isinstance(e, Ref):
+                e = self.load(e, mem)
+            if not isinstance(e, ExtItem):
+                raise Unsupported("is_empty() of something else than a declared extension")
+            self.domain[f"z{e.i}"] = {0, 1}
+            yield mem, path, BoolV(f"(= z{e.i} (_ bv1 64))")
+            return
         if c == "std::io::Error::kind":
             e = self.load(self.load_ref(args[0]), mem)
             if not isinstance(e, IoErr):
@@ -383,7 +403,8 @@ def preamble(ex, N):
     for j in range(N):
         out += [f"(declare-const r{j} (_ BitVec 64))", f"(declare-const d{j} (_ BitVec 64))", f"(declare-const k{j} (_ BitVec 64))",
                 f"(assert (or (= r{j} (_ bv0 64)) (= r{j} (_ bv1 64))))",
-                f"(assert (or (= d{j} (_ bv{ex.vidx('Io')} 64)) (= d{j} (_ bv{ex.vidx('Conversion')} 64))))"]
+                f"(assert (or (= d{j} (_ bv{ex.vidx('Io')} 64)) (= d{j} (_ bv{ex.vidx('Conversion')} 64))))",
+                f"(declare-const z{j} (_ BitVec 64))", f"(assert (or (= z{j} (_ bv0 64)) (= z{j} (_ bv1 64))))"]
     return out
 
 
@@ -447,7 +468,7 @@ def c03_queries(repo, fns_list, mir_text, N, log, native, result):
     props = [path_property(ex, p, r) for (p, r) in paths]
     bounds = (f"load_from_source + ErrorKind::or from MIR; n <= {N} declared extensions, every Ok/Io/Conversion outcome per extension, "
               f"io::ErrorKind an arbitrary 64-bit value; {len(paths)} control paths, symbolic execution {t_sym:.2f}s")
-    want = ["n"] + [f"{v}{j}" for j in range(N) for v in "rdk"]
+    want = ["n"] + [f"{v}{j}" for j in range(N) for v in "rdkz"]
     # 1. violation
     bad = ["(and " + conj(p.conds) + " (not " + pr[0] + "))" for (p, _), pr in zip(paths, props)]
     lines = pre + ["(assert (or " + " ".join(bad) + "))"]
@@ -456,6 +477,7 @@ def c03_queries(repo, fns_list, mir_text, N, log, native, result):
     if v == "sat":
         n, vec = vector_of(model, N)
         word = letters(ex, n, vec)
+        zs = [j for j in range(N) if model.get(f"z{j}", "#x0").endswith("1") and j < n]
         # which path does the model take? a path that fails without asking default_value is replayed on a
         # type whose default_value succeeds ('+' prefix of the reproducer)
         fixed = pre + [f"(assert (= {k} {val}))" for k, val in model.items()]
@@ -463,6 +485,18 @@ def c03_queries(repo, fns_list, mir_text, N, log, native, result):
             if pr[1] == "nodefault" and M.solve(fixed + [f"(assert {conj(p.conds)})"])[0] == "sat":
                 word = "+" + (word or "-")
                 break
+        if zs:
+            # an empty-string extension is involved: the reproducer has a type family whose first extension is ""
+            zq = pre + ["(assert (= z0 (_ bv1 64)))"] + [f"(assert (= z{j} (_ bv0 64)))" for j in range(1, N)] + ["(assert (or " + " ".join(bad) + "))"]
+            # prefer the observable case: the file without extension is there and decodable
+            v0, model0, _, _ = M.solve(zq + ["(assert (= r0 (_ bv0 64)))"], want_model_vars=want)
+            if v0 != "sat":
+                v0, model0, _, _ = M.solve(zq, want_model_vars=want)
+            if v0 == "sat":
+                n, vec = vector_of(model0, N)
+                word = "0" + (letters(ex, n, vec) or "-")
+            else:
+                word = "?" + word      # not replayable: stays inconclusive
         r["counterexample"] = {"n": n, "outcomes": word, "legend": "o=decodable c=undecodable n=not found p=other io error"}
         r["why"] = f"load_from_source with {n} extension(s) and outcomes '{word}' violates first-usable-extension / error precedence"
         try:
